@@ -3,7 +3,7 @@
 TRUSTED_BASE = [
     "Lean 4.33.0 kernel (and leanchecker in the thorough tier)",
     "axioms propext, Classical.choice, Quot.sound only; no native_decide, no bv_decide, no sorry",
-    "the Lean Spec statements (hand-transcribed RFC algorithms, Voi/Spec) and Lean SHA-2/Keccak (validated against Go's on every run, stream H0)",
+    "the Lean Spec statements (hand-transcribed RFC algorithms, Voi/Spec) and Lean SHA-2/Keccak (validated against Go's on every run: streams S0, H1 and every stream that hashes)",
     "the Go harness + line protocol + diff (go/harness, bin/check)",
     "Go compiler, runtime and standard library; the CPU",
 ]
@@ -117,7 +117,9 @@ PROPS["C19"] = dict(level="proof", streams=[("P1", 26000), ("M1", 2000),
                                                 # the per-protocol streams carry their own malformed/boundary inputs (a panic is a reply the model never gives)
                                                 ("E1", 600), ("V1", 800), ("D1", 800), ("T1", 600), ("Q1", 600), ("H1", 500), ("X1", 600), ("B1", 300)], configs_quick=Q4, configs_thorough=T4, thorough_mult=1,
                     theorems={"Voi.Props.TotalInv": TOTAL_THMS})
-PROPS["C08"] = dict(level="other", gens=["go2ir", "ct"], custom="ct", streams=[("T0", 3000)], configs_quick=["purego", "force32bit"], configs_thorough=T4,
+PROPS["C08"] = dict(level="other", gens=["go2ir", "ct"], custom="ct",
+                    technique="regenerated model (go2ir): symbolic execution of the real SSA with every secret symbolic; outcome table and IR leak-freedom "
+                              "checked by the Lean kernel; differential correspondence (T0) validates the translator", streams=[("T0", 3000)], configs_quick=["purego", "force32bit"], configs_thorough=T4,
                     theorems={"Voi.Props.C08": ["Voi.Props.C08.ir_leak_const", "Voi.Props.C08.run_steps_const", "Voi.Props.C08.ct_table_ok", "Voi.Props.C08.ct_table_size"]},
                     explanation="symbolic execution of the real SSA with all secret inputs symbolic (go2ir -ct) for 100+ entry point x backend pairs incl. negative controls; "
                                 "outcome table re-checked by the Lean kernel; IR programs are branch-free by construction; assembly covered by a committed control-flow skeleton; "
